@@ -943,10 +943,11 @@ def run(ck):
                            {"history": [lines_of_op(o) for o in ops], "backend": backend, "outcome": outcome})
             else:
                 report(ops, backend, 0, fails, "probe particle zone integrals")
+    static_broken = []          # what the tables flag without (yet) a failing input: searched for below, reported at the end
     for fn, how in tables["bad_nrow"]:
         if not (fn == "cg_multifam_write" and AVOID["afn_overwrite"]):
-            hard({"broken_obligation": "a node-context writer does not store the id of the node it creates",
-                          "function": fn, "how": how, "table": "Gen_C04.ctx_writers / Mirror.bad_nrows"}, nofail=True)
+            static_broken.append({"broken_obligation": "a node-context writer does not store the id of the node it creates",
+                                  "function": fn, "how": how, "table": "Gen_C04.ctx_writers / Mirror.bad_nrows"})
 
     # the witness of C04_order_refuted, for EVERY kind whose writer deletes and re-creates (by design of CGNS)
     seen_labels = set()
@@ -1021,8 +1022,8 @@ def run(ck):
             continue
         ops = probe_noblock(pl)
         if ops is None:
-            hard({"broken_obligation": "a parent label the goto table reaches has no block in cg_delete_node and the harness cannot "
-                                               "build such a node", "parent": pl}, nofail=True)
+            static_broken.append({"broken_obligation": "a parent label the goto table reaches has no block in cg_delete_node and the "
+                                                       "harness cannot build such a node", "parent": pl})
             continue
         div = False
         for backend in ("adf", "hdf5"):
@@ -1034,8 +1035,8 @@ def run(ck):
     for (pl, label) in tables["unsound"]:
         if pl == PIT and any(r.get("no_block") == PIT for r in replayed):
             continue
-        hard({"broken_obligation": "the dispatcher does not shift the array of this kind for an unreserved name",
-                      "parent": pl, "label": label, "table": "Mirror.unsound_kinds"}, nofail=True)
+        static_broken.append({"broken_obligation": "the dispatcher does not shift the array of this kind for an unreserved name",
+                              "parent": pl, "label": label, "table": "Mirror.unsound_kinds"})
     ck.extra["table_findings_replayed"] = replayed
 
     def one(ops, backend, compress, tag):
@@ -1116,7 +1117,7 @@ def run(ck):
     ck.extra["input_distribution"] = dist
 
     # ---- something broke without a failing input so far: widen the search (DESIGN.md 1.3)
-    if (corr_broken or broken) and not state["hard"]:
+    if (corr_broken or broken or static_broken) and not state["hard"]:
         found = False
         for j in range(120 if big else 40):
             backend = "adf" if j % 2 == 0 else "hdf5"
@@ -1131,7 +1132,7 @@ def run(ck):
                 found = True
                 break
         if not found:
-            hard({"broken_obligations": broken, "broken_correspondence": corr_broken[:3],
+            hard({"broken_obligations": broken, "broken_tables": static_broken[:5], "broken_correspondence": corr_broken[:3],
                           "note": "an obligation no longer checks or the model and the implementation print different lines, "
                                   "but every history explored still satisfies the three oracles"}, nofail=True)
 
